@@ -398,10 +398,11 @@ def run_check(prop, tier, verdict, extra_args=None):
                 continue
             if not os.path.exists(j["crash"]):
                 dest = os.path.join(C.REPLAYS_TMP, "%s-%s-%d-died.txt" % (prop, j["tag"], seed))
+                diag = [l for l in (out2 + err2).splitlines() if "runtime error" in l or "ERROR: " in l or "Assertion" in l]
                 with open(dest, "w") as f:
-                    f.write("worker died twice without leaving a case (status %s, %s)\ncommand: %s --prop %s --cfg %s --seed %s ...\n%s\n"
-                            % (rc, rc2, exe, prop, j["cfg"].name, j["seed"], (out2 + err2)[-3000:]))
-                verdict.violation(dest, "cfg=%s worker is killed reproducibly (status %s): runaway memory or a loop that never ends inside the library" % (j["cfg"].name, rc2))
+                    f.write("worker died twice without leaving a case (status %s, %s)\ncommand: %s --prop %s --cfg %s --seed %s ...\n%s\n%s\n"
+                            % (rc, rc2, exe, prop, j["cfg"].name, j["seed"], "\n".join(diag[:5]), (out2 + err2)[-3000:]))
+                verdict.violation(dest, "cfg=%s worker dies reproducibly (status %s): %s" % (j["cfg"].name, rc2, diag[0].strip()[:300] if diag else "runaway memory or a loop that never ends inside the library"))
                 nviol += 1
                 continue
         dest = os.path.join(C.REPLAYS_TMP, "%s-%s-%d-crash.replay" % (prop, j["tag"], seed))
